@@ -22,13 +22,13 @@ NCOMBO = len(COMBOS)
 LM_OK = {("se2", "r2"), ("se3", "r3"), ("r2", "r2"), ("r3", "r3")}
 
 RULE = ("complete enumeration of %d configurations: edge kind (odometry, landmark) x pose class of each endpoint (1..3 endpoints, 4 classes) x estimate class (4 poses + ndarray) "
-        "x offset class (4 poses + None, landmark only) x information shape (n x n for n=1..7 and 3 non-square) x all ids present / one id absent; case i is configuration "
+        "x offset class (4 poses + None, landmark only) x information shape (n x n for n=1..7 and 3 non-square) x all ids present / one id absent (the edge fresh, or pre-bound to the named vertex objects / to stale twins from an earlier graph); case i is configuration "
         "i mod N under variant i div N (vertex list order, id class and extra unrelated vertices randomised per variant; quick: 1 variant, thorough: 12); followed by binding cases: the 8 consistent configurations and whole cluster graphs under random list orders / hostile ids. distinct = configuration "
         "x variant; non-trivial = every configuration (each is a different point of the finite space)." % NCOMBO)
 NBIND = {"quick": 1200, "thorough": 40000}
 PLAN = {
     "quick": {"cases": NCOMBO + NBIND["quick"], "soft_s": 100, "min_nontrivial": NCOMBO, "require": ["eval:accept-iff-consistent", "eval:bound-by-id", "eval:accepted-edge-usable", "consistent_configurations",
-                                                                                  "inconsistent_configurations"]},
+                                                                                  "inconsistent_configurations", "edge_prebound:named", "edge_prebound:stale"]},
     "thorough": {"cases": NCOMBO * 12 + NBIND["thorough"], "soft_s": 1200, "min_nontrivial": NCOMBO * 12, "require": ["eval:accept-iff-consistent", "eval:bound-by-id", "eval:accepted-edge-usable",
                                                                                                 "consistent_configurations", "inconsistent_configurations"]},
 }
@@ -73,6 +73,23 @@ def binding_case(ctx, i, rng):
     except Exception as ex:
         raised = type(ex).__name__
     ctx.check("accept-iff-consistent", raised is not None, {"where": "whole-graph", "why": "unknown vertex id"}, {"raised": raised}, {"graph": {k: v for k, v in s2.items() if k != "truth_by_id"}})
+    # edges reused from an earlier graph: a second graph over fresh vertex objects must rebind them to *its* vertices, and must refuse them if one id is gone
+    fresh = M.build_vertices(spec)
+    g2 = M.Graph(list(g._edges), fresh)
+    byid2 = {v.id: v for v in fresh}
+    ok2 = all(e.vertices is not None and len(e.vertices) == len(e.vertex_ids) and all(ev is byid2[vid] for ev, vid in zip(e.vertices, e.vertex_ids)) for e in g2._edges)
+    ctx.check("bound-by-id", ok2, {"where": "whole-graph", "edges": "reused from an earlier graph"}, None, {"graph": {k: v for k, v in spec.items() if k != "truth_by_id"}})
+    used_ids = {vid for e in g._edges for vid in e.vertex_ids}
+    drop = [v for v in fresh if v.id in used_ids]
+    if drop:
+        gone = drop[int(rng.integers(len(drop)))]
+        raised = None
+        try:
+            M.Graph(list(g._edges), [v for v in M.build_vertices(spec) if v.id != gone.id])
+        except Exception as ex:
+            raised = type(ex).__name__
+        ctx.check("accept-iff-consistent", raised is not None, {"where": "whole-graph", "why": "reused edge names a vertex id that is not in the new graph"}, {"raised": raised},
+                  {"graph": {k: v for k, v in spec.items() if k != "truth_by_id"}, "missing_id": str(gone.id)})
     ctx.nontrivial("bind:%d" % i)
 
 
@@ -106,14 +123,23 @@ def run_case(ctx, i, rng):
         listed = [listed[int(j)] for j in order]
     estimate = np.array([0.5, 0.25]) if est == "ndarray" else M.mkpose(est, gen.mild_pose(vr, est))
     information = np.eye(*info) if info[0] == info[1] else np.ones(info)
+    # edge state that survives from before construction: the edge may arrive pre-bound (constructor argument vertices=...) to the named vertex objects,
+    # or to stale twins of them from an "earlier graph"; construction must (re)bind by id against *this* graph's list, or refuse
+    prebound = [None, "named", "stale"][(i // NCOMBO + i) % 3] if (variant or not present) else None
+    pre = None
+    if prebound == "named":
+        pre = list(named)
+    elif prebound == "stale":
+        pre = [M.Vertex(v.id, v.pose.copy()) for v in named]
     if kind == "odo":
-        e = M.EdgeOdometry(list(ids), information, estimate)
+        e = M.EdgeOdometry(list(ids), information, estimate, vertices=pre)
     else:
         offset = None if off == "none" else M.mkpose(off, gen.mild_pose(vr, off, 0.5))
-        e = M.EdgeLandmark(list(ids), information, estimate, offset, offset_id=0)
+        e = M.EdgeLandmark(list(ids), information, estimate, offset, offset_id=0, vertices=pre)
+    ctx.count("edge_prebound:%s" % prebound)
     exp = consistent(*cfg)
     ctx.count("consistent_configurations" if exp else "inconsistent_configurations")
-    feats = {"edge": kind, "endpoints": "-".join(ep), "estimate": est, "offset": off, "info": "%dx%d" % info, "ids_present": present, "expected_consistent": exp}
+    feats = {"prebound": prebound, "edge": kind, "endpoints": "-".join(ep), "estimate": est, "offset": off, "info": "%dx%d" % info, "ids_present": present, "expected_consistent": exp}
     case = {"configuration": {"edge": kind, "endpoints": list(ep), "estimate": est, "offset": off, "info": list(info), "ids_present": present}, "variant": variant}
     raised = None
     try:
